@@ -704,7 +704,7 @@ Qed.
 Definition EndEq (s : est) : Prop :=
   R (residual s) + fold_right (fun x acc => R x + acc) 0 (map (@cvote A) (electeds A s)) = cf_nballots cfg * S.
 
-Lemma final_end_eq (s : est) : EndEq (meek_final A cfg true s).
+Lemma final_end_eq rd (s : est) : EndEq (meek_final A cfg rd s).
 Proof.
   unfold meek_final, EndEq. cbv zeta. cbn [residual set_residual votes set_votes].
   rewrite (r_sub A S ZL), (r_of_int A S ZL), r_vsum'. unfold electeds. cbn [cands set_residual set_votes]. lia.
@@ -732,7 +732,7 @@ Proof.
   { eapply t_post; [|apply (t_while est (@crashed A) MI (fun _ => False))].
     - intros s [H|[H _]]; [contradiction|exact H].
     - eapply t_pre with (P := MI); [intros s H; exact (proj1 H)|]. apply meek_body_triple. }
-  apply t_do_nc. intros s M Hc. split; [apply mi_final; assumption|split; [apply meek_final_nohop; exact Hc|apply final_end_eq]].
+  apply t_do_nc. intros s M Hc. split; [apply mi_final; assumption|split; [apply meek_final_nohop; exact Hc|apply (final_end_eq true)]].
 Qed.
 
 Definition EndSnap (s : est) : Prop :=
